@@ -223,10 +223,11 @@ type Obj struct {
 	Val    AV
 	Site   string // allocation site comment
 	Opaque string // non-empty: contents unknown after being passed to an un-inlined callee; symbolic name
+	Before map[string]AV // fields at the moment the object became opaque
 }
 
 func (o *Obj) clone() *Obj {
-	n := &Obj{T: o.T, Kind: o.Kind, Val: o.Val, Site: o.Site, Opaque: o.Opaque}
+	n := &Obj{T: o.T, Kind: o.Kind, Val: o.Val, Site: o.Site, Opaque: o.Opaque, Before: o.Before}
 	if o.Fields != nil {
 		n.Fields = make(map[string]AV, len(o.Fields))
 		for k, v := range o.Fields {
@@ -1669,6 +1670,7 @@ func (in *Interp) markOpaque(st *State, args []AV) {
 				name = nt.Obj().Name()
 			}
 			o.Opaque = fmt.Sprintf("%s#%d", name, r.ID)
+			o.Before = o.Fields
 		}
 		o.Fields = map[string]AV{}
 	}
